@@ -403,8 +403,7 @@ fn judge_inner(ob: &mut Obs, al: &Alpha, kdefs: &[KeyDef], m: &Cell, expected: &
             return v;
         }
     };
-    // `{ } foreach I loop` may leave the (empty) collection itself on the stack: not claimed by C12
-    let st: Vec<Cell> = if st.len() == 1 && st[0] == *m && matches!(st[0].value(), Cell::Map(x) if x.size() == 0) { vec![] } else { st };
+    // (an empty map yields nothing at all: in particular not the map itself)
     let shown = || format!("{:?}", st.iter().map(render).collect::<Vec<_>>());
     if st.len() % 2 != 0 {
         v.findings.push(own("foreach", format!("`foreach I loop` leaves {} (not pairs)", shown())));
@@ -1671,7 +1670,6 @@ pub fn run(cfg: &Cfg) -> i32 {
     ev_.assumptions = vec![
         "key identity = typed, tag-blind equality (Int 1, Real 1.0 and Str \"1\" are three keys; a tagged 1 is the key 1)".into(),
         "a map literal is the sequence of its pairs inserted left to right (a key written twice keeps the last value)".into(),
-        "`{ } foreach I loop` may leave the empty collection on the stack (not claimed by C12)".into(),
         "string `length` may count characters or bytes; `slice` on strings counts characters".into(),
         "`slice` clamps (pinned by test_str_slice / test_vec_slice); an index of magnitude >= 2^62 may be refused with an error instead".into(),
         "`join` is checked on vectors without empty nested vectors (separator placement around them is not stated)".into(),
